@@ -100,6 +100,12 @@ CLAIMED = {
             "meeting atol/rtol and raise only otherwise; approx_fprime exact on quadratics (3-point) / first-order error eps*A_ii (2-point).", "4/C22",
             "path-exploring symbolic execution of the real helper code with scripted environment + z3 nlsat per path obligation; float replay of models",
             "Bounds: dimension <= 2, iteration limits <= 2 (quick) / 3; 'cs' method and ill-conditioning outside."),
+    "C21": ("model_checking", "The real solve() of BackwardEuler, Rattle, Moreau, DualStormerVerlet and the static Newton solver runs on tiny systems while "
+            "the outcome of every nonlinear solve and fixed-point test is a symbolic boolean; the path engine explores every fault schedule within "
+            "the bound (2 steps x 2 iterations, continue_with_unconverged on/off) and a monitor decides on each: failure => raised, or warned and "
+            "continued, or warned and only converged steps returned; no failure => silent complete run. ScipyIVP/ScipyDAE on contact systems must raise or warn.",
+            "4/C21", "fault-schedule exploration: symbolic booleans injected into the real solver loops (rebinding fsolve / norm in the solver module), z3 for path feasibility, all schedules within the bound; float replay of the schedule",
+            "Coverage is exhaustive over <= 2 steps x <= 2 iterations only (Rattle with continue_with_unconverged is cut at the path budget in the quick tier; paths_cut is reported)."),
 }
 
 NOT_APPLICABLE = {
